@@ -145,6 +145,37 @@ def run(rng: Rng, tier: str, index: int) -> RunResult:
                         elif kid != first_auto:
                             viol("kid:unstable", "automatic kid changed from %r to %r" % (first_auto, kid))
                 tr.add(label, name, digest)
+        # several keys created with ONE parameters dict object: every key gets its own thumbprint kid, the dict is not written to
+        try:
+            shared = dict(krng.pick([{"use": "sig"}, {"alg": "X"}, {"use": "enc", "key_ops": ["encrypt"]}, {}]))
+            before = copy.deepcopy(shared)
+            others = [S.gen_material(krng.sub("shared%d" % j), kind) for j in range(2)]
+            objs = []
+            for j, mat in enumerate([material] + others):
+                how = krng.pick(hows[1:] or hows)
+                objs.append((mat, S.provision(mat, how, shared) if how != "jwk" else S.jose_cls(mat.kty).import_key(rk.to_jwk(mat, True), shared)))
+                if krng.chance(0.5):
+                    objs[-1][1].ensure_kid()
+            ks = KeySet([o for _, o in objs])
+            res.case(label, "shared-parameters")
+            res.fired("keys-sharing-one-parameters-dict")
+            for mat, o in objs:
+                if o.kid != rk.thumbprint(mat):
+                    viol("kid:auto-differs-from-thumbprint", "key created with a shared parameters dict has kid %r, its thumbprint is %r" % (o.kid, rk.thumbprint(mat)),
+                         {"rep": "shared-parameters"})
+                    break
+            if shared != before:
+                viol("kid:callers-parameters-altered", "the caller's parameters dict was changed from %r to %r" % (before, shared), {"rep": "shared-parameters"})
+            if not (kind[0] == "RSA" and kind[1] > 2048):
+                gs = KeySet.generate_key_set(kind[0], kind[1] if kind[0] != "oct" else 128, dict(before) or None, True, 3)
+                kids = [k.kid for k in gs.keys]
+                want_kids = [rk.thumbprint(S.material_of(k)) for k in gs.keys]
+                res.case(label, "generate_key_set")
+                if kids != want_kids:
+                    viol("kid:auto-differs-from-thumbprint", "generate_key_set(parameters=%r) gives kids %r, thumbprints are %r" % (before, kids, want_kids),
+                         {"rep": "generate_key_set"})
+        except Exception as e:
+            viol("history:shared-parameters:failed", "%s: %s" % (type(e).__name__, str(e)[:100]))
         # generate_key(auto_kid=True): kid == thumbprint of the generated key
         try:
             size = kind[1] if kind[0] != "oct" else 256
@@ -197,6 +228,21 @@ def replay(repro: dict):
         if blob is not None:
             reps.append(("reload-" + form, lambda cls, blob=blob, form=form: _reload(blob, form, cls)))
     from joserfc.jwk import KeySet
+    if repro.get("rep") in ("shared-parameters", "generate_key_set"):
+        shared = {"use": "sig"}
+        m2 = S.gen_material(Rng("replay-shared"), (material.kty, material.crv if material.kty in ("EC", "OKP") else (2048 if material.kty == "RSA" else None)))
+        a = S.provision(material, hows[-1], shared)
+        b = S.provision(m2, hows[-1], shared)
+        KeySet([a, b])
+        if a.kid != rk.thumbprint(material) or b.kid != rk.thumbprint(m2):
+            out.append(("kid:auto-differs-from-thumbprint", "shared parameters dict"))
+        if shared != {"use": "sig"}:
+            out.append(("kid:callers-parameters-altered", repr(shared)))
+        if material.kty != "RSA":
+            gs = KeySet.generate_key_set(material.kty, material.crv if material.kty != "oct" else 128, {"use": "sig"}, True, 3)
+            if [k.kid for k in gs.keys] != [rk.thumbprint(S.material_of(k)) for k in gs.keys]:
+                out.append(("kid:auto-differs-from-thumbprint", "generate_key_set"))
+        return out
     for name, f in reps:
         for digest in ("sha256", "sha384", "sha512"):
             try:
